@@ -65,11 +65,18 @@ def code_part(line):
 def candidates(path):
     res = []
     infunc = False
+    inblock = False
     for ln, line in enumerate(open(path).read().split('\n'), 1):
         s = line.strip()
+        if inblock:
+            if '*/' in line: inblock = False
+            continue
+        if s.startswith('/*'):
+            if '*/' not in line: inblock = True
+            continue
         if line.startswith('func '): infunc = True
         if line.startswith('}'): infunc = False
-        if not infunc or s.startswith('//') or 'perTrace' in line or 'Log.' in line or 'logger.' in line or 'fmt.Print' in line or 'log.Print' in line:
+        if not infunc or s.startswith('//') or 'perTrace' in line or 'Log.' in line or 'logger.' in line or 'fmt.Print' in line or 'log.Print' in line or 'd_trace' in line:
             continue
         code = code_part(line)
         for pat, rep in OPS:
